@@ -309,6 +309,16 @@ theorem cmpETest_fresh (g : GState) (op : COp) (e : GExpr) (b : Atom) (eLeft neg
     have := fresh_prepend g (treeLines e ++ [GLine.ins .CMP (some b)]) _ hp this
     simpa [List.append_assoc] using this
 
+theorem cmpRTest_fresh (g : GState) (op : COp) (e : GExpr) (y eLeft negate : Bool) (label : Lbl) :
+    Fresh g (cmpRTest g op e y eLeft negate label) := by
+  unfold cmpRTest
+  have := branchInstr_fresh { g with flags := none } (finalOp op negate eLeft) label
+  simp at this
+  have hp : labels (treeLines e ++ [GLine.ins .STA (some tmp), GLine.ins (if y then .CPY else .CPX) (some tmp)]) = [] := by
+    simp [labels_treeLines, labels]
+  have := fresh_prepend g (treeLines e ++ [GLine.ins .STA (some tmp), GLine.ins (if y then .CPY else .CPX) (some tmp)]) _ hp this
+  simpa [List.append_assoc] using this
+
 theorem truthETest_fresh (g : GState) (e : GExpr) (negate : Bool) (label : Lbl) :
     Fresh g (truthETest g e negate label) := by
   unfold truthETest
@@ -323,6 +333,7 @@ theorem genCond_fresh (c : Cond) : ∀ (g : GState) (negate : Bool) (label : Lbl
   | not c ih => intro g negate label; simp only [genCond]; exact ih ..
   | cmpE op e b eLeft => intro g negate label; exact cmpETest_fresh ..
   | truthE e => intro g negate label; exact truthETest_fresh ..
+  | cmpR op e y eLeft => intro g negate label; exact cmpRTest_fresh ..
   | and a b iha ihb =>
     intro g negate label
     cases negate with
